@@ -251,7 +251,40 @@ def run(tier, rep):
     for c in cases:
         paths["fam:" + c["id"]] = c["path"]
         meta["fam:" + c["id"]] = c
+    # ---- type-parameter names of a generic struct reused by the function around it (fam_c03.names_cases): the well-typed
+    # programs that are not part of the shared families, and the variants with one wrong annotation.  All of them go through
+    # the compiler here; whatever is accepted is judged like every other program, and an accepted ill-typed one is a violation.
+    # (with them: `Self` below function types in impl method headers - closures flowing into function-typed positions hit a
+    # known open defect in the emitted Go, so those programs are not in the families shared with C01 / C02)
+    ncases = tv.prepare_cases([c for c in fam_c03.names_cases(tier) if not c.get("runnable")] + fam_c03.self_programs_c03_only(tier), workdir("c03-names"))
+    for c in ncases:
+        paths["names:" + c["id"]] = c["path"]
+        meta["names:" + c["id"]] = c
     res = export_ir(paths)
+    names_verdicts = Counter()
+    names_rejected_welltyped = []
+    for key, c in meta.items():
+        if not c["ident"].startswith("c03:type-parameter-names:"):
+            continue
+        r = res[key]
+        names_verdicts[("well-typed:" if c["welltyped"] else "ill-typed:") + r["verdict"]] += 1
+        detail = {"verdict": r["verdict"], "diagnostics": [d["msg"] for d in r.get("diags", [])][:4], "panic": r.get("msg"), "source": c["text"][-2500:]}
+        if c["welltyped"]:
+            if r["verdict"] != "ok":
+                names_rejected_welltyped.append({"program": c["ident"], **detail})
+        elif r["verdict"] == "ok":
+            rep.violation("ill-typed-accepted:" + c["ident"][4:], detail, replay={"source": c["text"], "program": c["ident"]})
+        elif r["verdict"] != "typer":
+            rep.violation(f"ill-typed-not-rejected-by-typer:{r['verdict']}:" + c["ident"][4:], detail, replay={"source": c["text"], "program": c["ident"]})
+    # well-typed programs generated only for this check that the compiler did not take to the end (nobody else looks at them)
+    rep.coverage["programs_generated_for_c03_only_not_compiled"] = {c["ident"]: res["names:" + c["id"]]["verdict"] for c in ncases
+                                                                   if c.get("welltyped", True) and res["names:" + c["id"]]["verdict"] != "ok"}
+    nwell = sum(n for k, n in names_verdicts.items() if k.startswith("well-typed:"))
+    if not rep.violations and len(names_rejected_welltyped) * 2 > nwell:
+        raise ToolError(f"type-parameter-names family: {len(names_rejected_welltyped)} of {nwell} well-typed programs rejected, e.g. {names_rejected_welltyped[0]}")
+    if names_verdicts.get("ill-typed:typer", 0) + names_verdicts.get("ill-typed:ok", 0) < 300:
+        raise ToolError(f"vacuity: type-parameter-names family has only {dict(names_verdicts)}")
+    rep.coverage["type_parameter_names"] = {"verdicts": dict(names_verdicts), "well_typed_rejected": names_rejected_welltyped[:20]}
     accepted = [(i, prune(r["ir"])) for i, r in res.items() if r["verdict"] == "ok"]
     too_deep = [i for i, ir in accepted if depth(ir) > 240]
     accepted = [(i, ir) for i, ir in accepted if i not in too_deep]
@@ -268,6 +301,10 @@ def run(tier, rep):
     for i, ir in accepted:
         for e in errs[i]:
             pid_ = meta[i]["ident"] if i in meta else i
+            # a program that packs many generated functions names the one the error is in (instances: name__T_string)
+            sub = meta[i].get("fn_idents") if i in meta else None
+            if sub and e["fn"].split("#")[-1].split("__")[0] in sub:
+                pid_ += ":" + sub[e["fn"].split("#")[-1].split("__")[0]]
             ident = identity_of(e, lifted_of[i], pid_)
             rule_hits[_identity_of(e, lifted_of[i])] += 1
             src = open(paths[i]).read()
@@ -300,7 +337,7 @@ def run(tier, rep):
         rep.coverage["selftest_corruptions_rejected"] = dict(kinds)
 
     # ---------------- negative half: one injected type error must be rejected
-    base = [meta[i] for i, _ in accepted if i in meta and not meta[i].get("extra_files")]
+    base = [meta[i] for i, _ in accepted if i in meta and not meta[i].get("extra_files") and meta[i].get("welltyped", True)]
     allm = []
     for c in base:
         try:
